@@ -112,7 +112,10 @@ def _case(entry, ops, route="plain", view="all"):
     """view="last": the state is observed after the last step only (exhaustive enumerations contain
     every prefix as a history of its own); results are observed at every step in both modes"""
     keys, vals = _universe(ops)
-    return {"entry": entry, "ops": ops, "keys": keys, "vals": vals, "route": route, "view": view}
+    # key tuples looked up as a whole (`d[(a, b)]`): singletons and ordered pairs of the first keys
+    ks = keys[:3]
+    tuples = [[k] for k in ks] + [[a, b] for a in ks for b in ks if a != b]
+    return {"entry": entry, "ops": ops, "keys": keys, "vals": vals, "tuples": tuples, "route": route, "view": view}
 
 
 def _rand_tuple(rng, keys, maxlen):
@@ -249,7 +252,7 @@ def _keys(t):
     return {"t": list(t)}
 
 
-def _mk_view(d, keys, vals, enc_v, dec_v):
+def _mk_view(d, keys, vals, tuples, enc_v, dec_v):
     return {
         "len": len(d),
         "iter": sorted(enc_v(v) for v in d),
@@ -261,6 +264,7 @@ def _mk_view(d, keys, vals, enc_v, dec_v):
         "get": [_res(lambda: _val(enc_v(d[k]))) for k in keys],
         "k2k": [_res(lambda: _keys(d.key2keys(k))) for k in keys],
         "v2k": [list(d.value2keys(dec_v(v))) for v in vals],
+        "gett": [_res(lambda: _val(enc_v(d[tuple(t)]))) for t in tuples],
     }
 
 
@@ -312,7 +316,7 @@ def _impl_mk(c):
         else:
             raise ValueError("unknown op %r" % (op,))
         if view_all or i == len(ops) - 1:
-            v = _mk_view(d, keys, vals, ident, ident)
+            v = _mk_view(d, keys, vals, c.get("tuples", []), ident, ident)
         else:
             v = {}
         v["res"] = r
@@ -408,7 +412,7 @@ def _impl_sd(c):
         if not (view_all or i == len(ops) - 1):
             steps.append({"res": r})
             continue
-        v = _mk_view(sd, keys, vals, st.enc, lambda i: st.fs[i])
+        v = _mk_view(sd, keys, vals, c.get("tuples", []), st.enc, lambda i: st.fs[i])
         v["res"] = r
         v["attrs"] = sorted([k, st.enc(x)] for k, x in vars(sd).items() if k not in hidden)
         v["default"] = default_now()
@@ -435,7 +439,8 @@ def request(c):
             ops.append(["set", [op[1]], op[2]])
         else:
             ops.append(op)
-    return {"entry": c["entry"], "ops": ops, "keys": c["keys"], "vals": c["vals"], "view": c.get("view", "all")}
+    return {"entry": c["entry"], "ops": ops, "keys": c["keys"], "vals": c["vals"],
+            "tuples": c.get("tuples", []), "view": c.get("view", "all")}
 
 
 # ----------------------------------------------------------------------------
@@ -446,7 +451,7 @@ def _canon_model(m):
         return {"res": m["res"]}
     out = {"res": m["res"], "len": m["len"], "iter": sorted(m["iter"]), "items": sorted(m["items"]),
            "keys_dict": sorted(m["keys_dict"]), "inv_dict": sorted(m["inv_dict"]),
-           "get": m["get"], "k2k": m["k2k"], "v2k": m["v2k"]}
+           "get": m["get"], "k2k": m["k2k"], "v2k": m["v2k"], "gett": m["gett"]}
     if "attrs" in m:
         out["attrs"] = sorted([a for a in m["attrs"] if a[0] is not None])
         out["default"] = m["default"]
@@ -459,7 +464,7 @@ def _canon_spec(s):
     if "len" not in s:
         return {"res": s["res"]}
     out = {"res": s["res"], "len": s["len"], "iter": sorted(s["iter"]), "items": sorted(s["items"]),
-           "get": s["get"], "k2k": s["k2k"], "v2k": s["v2k"]}
+           "get": s["get"], "k2k": s["k2k"], "v2k": s["v2k"], "gett": s["gett"]}
     if "attrs" in s:
         out["attrs"] = sorted(s["attrs"])
         out["default"] = s["default"]
